@@ -547,9 +547,28 @@ func (e *Engine) unop(f *frame, x *ssa.UnOp) Value {
 	case token.MUL: // load
 		p := v.(Ptr)
 		if p.Idx != nil {
-			r := e.load(e.sub(p.Arr, p.Off+p.N-1)).(*smt.Term)
-			for k := p.N - 2; k >= 0; k-- {
-				r = e.ctx.Ite(e.ctx.Eq(p.Idx, e.ctx.BV(uint64(k), p.Idx.W)), e.load(e.sub(p.Arr, p.Off+k)).(*smt.Term), r)
+			// ite chain over the cells; runs of equal cells (constant lookup tables such as
+			// utf8's first[256]) are merged into one range test
+			vals := make([]*smt.Term, p.N)
+			for k := 0; k < p.N; k++ {
+				vals[k] = e.load(e.sub(p.Arr, p.Off+k)).(*smt.Term)
+			}
+			r := vals[p.N-1]
+			for hi := p.N - 2; hi >= 0; {
+				lo := hi
+				for lo > 0 && vals[lo-1] == vals[hi] {
+					lo--
+				}
+				if vals[hi] != r {
+					var c *smt.Term
+					if lo == hi {
+						c = e.ctx.Eq(p.Idx, e.ctx.BV(uint64(hi), p.Idx.W))
+					} else {
+						c = e.ctx.And(e.ctx.Cmp(smt.OpBVUle, e.ctx.BV(uint64(lo), p.Idx.W), p.Idx), e.ctx.Cmp(smt.OpBVUle, p.Idx, e.ctx.BV(uint64(hi), p.Idx.W)))
+					}
+					r = e.ctx.Ite(c, vals[hi], r)
+				}
+				hi = lo - 1
 			}
 			return r
 		}
